@@ -1,7 +1,7 @@
 (* C09 - every wire has exactly one driver, or the program is rejected.
    What acceptance by Program::new (Build.build_program) guarantees, over the statement list.
    Proofs live in BuildProofs.v. *)
-From HclV Require Import Base Expr ExprSpec Machine Graph Build MachineSpec SchedSpec BuildSpec Generated BuildProofs.
+From HclV Require Import Base Expr ExprSpec Machine Graph Build MachineSpec SchedSpec BuildSpec Generated BuildProofs CompleteSpec CompleteProofs.
 Open Scope string_scope.
 Open Scope list_scope.
 Open Scope N_scope.
@@ -87,3 +87,36 @@ Example C09_faults :
   kinds (bp (SAssign [(["i10bytes"], EConst (mkV 0 (Bits 80)))] :: base)) = [DoubleAssignedFixedOutWire] /\
   kinds (bp (SAssign [(["reg_dstE"], EConst (mkV 0 (Bits 4)))] :: base)) = [PartialFixedInput].
 Proof. vm_compute. repeat split; reflexivity. Qed.
+
+(* ---- "A program with none of these faults and no width or cycle fault is accepted" ----------
+   CompleteSpec.fault_free is a record of clauses written over the statement list only (lists of
+   declared / assigned names with multiplicity, refs of expressions, the width judgement
+   has_width, evaluation of constant expressions, acyclicity of the reads relations): one clause
+   per fault the property lists plus the ones Program::new additionally needs (bank names,
+   mandatory Stat and pc).  Proving it found two defects of the pinned code (register initial
+   values never width-checked; reading an unassigned stall_X / bubble_X rejected), both repaired *)
+Theorem C09_fault_free_program_is_accepted :
+  forall f is_lower is_upper stmts,
+    fault_free f gen_fixed is_lower is_upper stmts ->
+    exists p, build_program f gen_fixed is_lower is_upper stmts = Ok p.
+Proof. exact fault_free_accepted_gen_holds. Qed.
+Print Assumptions C09_fault_free_program_is_accepted.
+
+(* for every component table whose inputs (per component) and outputs are pairwise distinct *)
+Theorem C09_fault_free_program_is_accepted_any_table :
+  forall f fixed is_lower is_upper, stmt_fault_free_accepted f fixed is_lower is_upper.
+Proof. exact fault_free_accepted_holds. Qed.
+Print Assumptions C09_fault_free_program_is_accepted_any_table.
+
+(* and conversely: acceptance is EXACTLY fault freedom (for the compiled component table) *)
+Theorem C09_accepted_iff_fault_free :
+  forall f is_lower is_upper stmts,
+    (exists p, build_program f gen_fixed is_lower is_upper stmts = Ok p) <->
+    fault_free f gen_fixed is_lower is_upper stmts.
+Proof. exact accepted_iff_fault_free_gen_holds. Qed.
+Print Assumptions C09_accepted_iff_fault_free.
+
+(* non-vacuity and tightness (computed on the compiled table): a pipelined program with two banks,
+   constants, memory and register file is fault free; for each clause a program violating it is
+   rejected; the replay programs of the two repaired defects *)
+Check ex_pipeline_fault_free. Check ex_pipeline_accepted. Check f19_replays_rejected. Check f20_replay_accepted.
